@@ -179,5 +179,5 @@ def make_harness(case, tier):
 
 
 def run_case(case, tier):
-    ctx = explore.explore(make_harness(case, tier), max_paths=80000, time_budget_s=500)
+    ctx = explore.explore(make_harness(case, tier), max_paths=(80000 if tier == 'quick' else 3200000), time_budget_s=(500 if tier == 'quick' else 3600))
     return driver.result_from_ctx(ctx)
